@@ -627,6 +627,29 @@ def h_conversion_alias(env, direction):
                        f"{direction}: in-place arithmetic on {'the converted operator' if who is conv else 'the source'} leaves {label} unchanged")
 
 
+def h_mf_tiny_product(env, scale):
+    """AUXILIARY enumerated shape: the array-form product of two operators whose coefficients are of size `scale` (1e-7, 1e-9):
+    every word of the symbolic product is there with its coefficient (relative 1e-9) - nothing is pruned by an absolute tolerance"""
+    from tangelo.toolboxes.operators import MultiformOperator, QubitOperator
+    from symx import shim
+    with shim.concrete_mode():
+        wa = [((0, "X"), (1, "Y")), ((0, "Z"),), ((1, "X"),), ((0, "Y"), (1, "Y"))]
+        wb = [((0, "Z"), (1, "Z")), ((1, "Y"),), ((0, "X"),)]
+        a, b = QubitOperator(), QubitOperator()
+        for i, w in enumerate(wa):
+            a.terms[w] = scale * (1.0 + 0.25 * i)
+        for i, w in enumerate(wb):
+            b.terms[w] = scale * (0.5 - 0.75 * i)
+        ref = a * b
+        got = (MultiformOperator.from_qubitop(a, 2) * MultiformOperator.from_qubitop(b, 2))
+        keys = set(k for k, v in ref.terms.items() if abs(v) > 0)
+        missing = sorted(k for k in keys if k not in got.terms)
+        dev = max([abs(complex(got.terms.get(k, 0)) - complex(ref.terms[k])) / (scale * scale) for k in keys] or [0.0])
+    env.check_true(not missing, f"array-form product of operators with coefficients ~{scale:.0e}: every word of the symbolic product is present", detail=str(missing[:4]))
+    env.check_true(dev < 1e-9, f"array-form product of operators with coefficients ~{scale:.0e}: coefficients equal the symbolic product (relative 1e-9)", detail=str(dev))
+    env.check_same((got.integer.shape[0], len(got.factors)), (len(got.terms),) * 2, "array forms of the product have one row per term")
+
+
 def h_mf_history(env, n, words, removal, tol):
     """histories: after the documented in-place updates remove_terms(indices) (int, list or array form, index 0 included) and
     compress(abs_tol) (an explicit 0 included) every form of the operator - terms, exported QubitOperator, integer/factors arrays -
@@ -835,6 +858,8 @@ def shapes(tier, seed):
                      dict(n=3, cases=[((a,), (b,)) for a in asym3 for b in asym3], after_compress=True), modules=MODS))
     for dir_ in ("op->ham", "ham->op"):
         out.append(Shape(f"convert/alias/{dir_}", h_conversion_alias, dict(direction=dir_), modules=MODS))
+    for sc_ in (1e-7, 1e-9, 1e-3):
+        out.append(Shape(f"multiform/tiny-product/{sc_:.0e}", h_mf_tiny_product, dict(scale=sc_), modules=()))
     hist_words = [((0, "X"), (1, "Y")), ((0, "Z"),), ((1, "X"),), ((0, "Y"), (1, "Y")), ((1, "Z"),), ((0, "X"),)]
     for i_, (rm_, tol_) in enumerate([(0, None), ([0], None), ((0,), None), (1, None), ([0, 2], None), ((5, 0), None), ([], None), (None, 0), (None, 0.0),
                                       (None, 1e-9), (None, 1e-12), (None, 2.0), (0, 0), ([1, 3], 1e-9)]):
